@@ -379,11 +379,110 @@ fn case_uniformity_replay(bytes: &[u8], _s: &[u8], ctx: &mut Ctx) -> Result<(), 
     Ok(())
 }
 
+/// The same statistic with every trial on a freshly spawned thread: the sampler's generator is per-thread
+/// state, so trials that share a thread cannot see a generator that starts every thread in the same state.
+fn uniformity_fresh_threads(pr: &PropRun) -> LaneReport {
+    let start = std::time::Instant::now();
+    let mut rep = LaneReport::named("uniformity-fresh-threads");
+    let trials = pr.cfg.cases(6_000, 200_000) as usize;
+    let configs: [(usize, usize); 3] = [(1, 2), (2, 5), (4, 16)];
+    for &(k, n) in &configs {
+        let counts: Vec<std::sync::atomic::AtomicU64> = (0..n).map(|_| std::sync::atomic::AtomicU64::new(0)).collect();
+        let mut done = 0usize;
+        while done < trials {
+            let batch = (trials - done).min(16);
+            std::thread::scope(|s| {
+                for _ in 0..batch {
+                    let counts = &counts;
+                    s.spawn(move || {
+                        let r = AtomicSamplingReservoir::new(k);
+                        for i in 0..n {
+                            r.push((i + 1) as f64);
+                        }
+                        r.consume(|d| {
+                            for v in d {
+                                let i = v as usize;
+                                if i >= 1 && i <= n {
+                                    counts[i - 1].fetch_add(1, std::sync::atomic::Ordering::Relaxed);
+                                }
+                            }
+                        });
+                    });
+                }
+            });
+            done += batch;
+        }
+        let counts: Vec<u64> = counts.iter().map(|c| c.load(std::sync::atomic::Ordering::Relaxed)).collect();
+        let p = k as f64 / n as f64;
+        let t = trials as f64;
+        let sigma = (t * p * (1.0 - p)).sqrt();
+        let mut worst = 0.0f64;
+        for (i, c) in counts.iter().enumerate() {
+            let z = (*c as f64 - t * p).abs() / sigma;
+            worst = worst.max(z);
+            let mut ctx = Ctx::default();
+            ctx.nontrivial("retention-frequency-statistic-fresh-threads");
+            ctx.fingerprint = Some((k * 1_000_000 + n * 1000 + i) as u64);
+            if i == 0 {
+                ctx.desc = Some(format!("capacity {} n {}, {} trials each on a newly spawned thread: retention counts per position {:?} (expected {:.1} each, 6 sigma = {:.1})", k, n, trials, counts, t * p, 6.0 * sigma));
+            }
+            rep.account(ctx);
+            if z > 6.0 {
+                rep.violations.push(Violation {
+                    lane: "uniformity-fresh-threads".into(),
+                    sig: "position-retention-not-uniform-across-threads".into(),
+                    msg: format!("capacity {} of n {}, one trial per new thread: position {} retained {} times in {} trials, expected {:.1} +- {:.1} (z = {:.1}); all counts {:?}", k, n, i, c, trials, t * p, sigma, z, counts),
+                    bytes: vec![k as u8, n as u8],
+                    sched: vec![],
+                    decoded: format!("capacity {} n {} trials {} (each on a new thread)", k, n, trials),
+                });
+                break;
+            }
+        }
+        rep.notes.push(format!("cap {} n {}: worst z {:.2}", k, n, worst));
+    }
+    rep.evaluations = (trials * configs.len()) as u64;
+    rep.wall_s = start.elapsed().as_secs_f64();
+    rep
+}
+
+fn case_uniformity_fresh_replay(bytes: &[u8], _s: &[u8], ctx: &mut Ctx) -> Result<(), Fail> {
+    let k = (*bytes.first().unwrap_or(&1) as usize).max(1);
+    let n = (*bytes.get(1).unwrap_or(&2) as usize).max(k + 1);
+    ctx.case(&("uniformity replay, one trial per new thread", k, n));
+    let trials = 4_000usize;
+    let mut counts = vec![0u64; n];
+    for _ in 0..trials {
+        let got = std::thread::spawn(move || {
+            let r = AtomicSamplingReservoir::new(k);
+            for i in 0..n {
+                r.push((i + 1) as f64);
+            }
+            let mut out = vec![];
+            r.consume(|d| out.extend(d));
+            out
+        })
+        .join()
+        .map_err(|_| Fail::new("reservoir-panicked", "push/consume panicked".to_string()))?;
+        for v in got {
+            counts[(v as usize).clamp(1, n) - 1] += 1;
+        }
+    }
+    let p = k as f64 / n as f64;
+    let sigma = (trials as f64 * p * (1.0 - p)).sqrt();
+    for (i, c) in counts.iter().enumerate() {
+        let z = (*c as f64 - trials as f64 * p).abs() / sigma;
+        ensure!(z <= 6.0, "position-retention-not-uniform-across-threads", "capacity {} n {}: position {} retained {} of {} (z={:.1}) counts {:?}", k, n, i, c, trials, z, counts);
+    }
+    Ok(())
+}
+
 pub fn run(cfg: &RunCfg, replay: Option<&str>) -> i32 {
     let mut pr = PropRun::new("C16", cfg, RULE);
     pr.register("sequential", &case_seq);
     pr.register("concurrent", &case_conc);
     pr.register("uniformity", &case_uniformity_replay);
+    pr.register("uniformity-fresh-threads", &case_uniformity_fresh_replay);
     if let Some(f) = replay {
         return pr.replay(f);
     }
@@ -398,6 +497,8 @@ pub fn run(cfg: &RunCfg, replay: Option<&str>) -> i32 {
     let r = run_lane(&c, "C16", &Lane { name: "concurrent", cases: c.cases(1_000_000, 20_000_000), max_len: 24, sched_len: 48, workers: 0, f: &case_conc });
     pr.push(r);
     let r = uniformity(&pr);
+    pr.push(r);
+    let r = uniformity_fresh_threads(&pr);
     pr.push(r);
     pr.finish()
 }
